@@ -20,7 +20,7 @@ def focus_set(fams):
 
 
 def exec_cfg(path, *, tabcols="MC_TabCols", colvals="MC_ColVals", rows=2, steps=1, backends=False,
-             level=1, genbad=False, samplek=0, focus=None, invariants=(), emit=False, one_in=1, bdev="NoBDev"):
+             level=1, genbad=False, samplek=0, focus=None, invariants=(), emit=False, one_in=1, bdev="NoBDev", properties=()):
     consts = {
         "NULL": "= NULL",
         "TabCols": "<- " + tabcols,
@@ -38,7 +38,7 @@ def exec_cfg(path, *, tabcols="MC_TabCols", colvals="MC_ColVals", rows=2, steps=
         "BDev": "<- " + bdev,
     }
     inv = list(invariants) + (["Emit"] if emit else [])
-    common.write_cfg(path, constants=consts, invariants=inv)
+    common.write_cfg(path, constants=consts, invariants=inv, properties=properties)
 
 
 def write_focus_module(fams, name="MC_ExecF"):
